@@ -18,7 +18,8 @@
   each written once into its own ring / map slot: the order is irrelevant (`Model.Context.*`, Model/Txn.lean).
   `shouldUseForwarding` ranges over `pushedRunnersInPreviousCycle` and returns the first match: with renaming two runners
   pushed in one cycle CAN write the same register, and a consumer pushed in the next cycle matches both.  The model does
-  not choose: it ends the run with the panic `Model.Mvp61.mapOrderMsg` (printed `maporder` by the driver: no verdict).
+  not choose: it records the candidate and the two producers in `State.mapOrder` and ends the run with the panic
+  `Model.Mvp61.mapOrderMsg` (printed `maporder` by the driver: no verdict); characterised in `Proofs/Mvp63MapOrder.lean`.
 -/
 import MajoranaVerif.Model.Mvp62
 open GoInt
@@ -50,6 +51,6 @@ def run (app : App) (ctx : Model.Context) (eu wu : Nat) (fuel : Nat) : Result :=
   | .error _ => { halt := some (.panic "NewCPU"), final := { ctx := ctx, mmu := default }, ticks := 0 }
 
 /-- the run ended because the Go result depends on map iteration order -/
-def isMapOrder (r : Result) : Bool := r.halt == some (.panic Model.Mvp61.mapOrderMsg)
+def isMapOrder (r : Result) : Bool := r.final.mapOrder.isSome
 
 end Model.Mvp63
